@@ -931,6 +931,9 @@ def register_all(M):
     M.add(CH + r"is_ascii_punctuation", lambda c, m, a: sbool(in_ranges(deref(a[0]), [(33, 47), (58, 64), (91, 96), (123, 126)])))
     M.add(CH + r"len_utf8", lambda c, m, a: usize(c.cwidth(deref(a[0]))))
     M.add(r"<char as PartialEq>::eq", lambda c, m, a: sbool(char_eq(deref(a[0]), deref(a[1]))))
+    INTS = r"(?:usize|u8|u16|u32|u64|i8|i16|i32|i64|isize|bool)"
+    M.add(r"<&?&?" + INTS + r" as PartialEq(?:<&?&?" + INTS + r">)?>::eq", lambda c, m, a: sbool(M.elem_eq(c, deref(deref(a[0])), deref(deref(a[1])))))
+    M.add(r"<&?&?" + INTS + r" as PartialEq(?:<&?&?" + INTS + r">)?>::ne", lambda c, m, a: sbool(z_not(M.elem_eq(c, deref(deref(a[0])), deref(deref(a[1]))))))
     M.add(r"<char as PartialEq>::ne", lambda c, m, a: sbool(z_not(char_eq(deref(a[0]), deref(a[1])))))
 
     def encode_utf8(c, m, a):
@@ -1621,6 +1624,10 @@ def register_all(M):
                 return some(new_ref(e[1]))
         return none()
     M.add(MAP + r"::<.*>::get::<.*>", map_get)
+    def map_clear(c, m, a):
+        deref(a[0]).entries[:] = []
+        return UNIT
+    M.add(MAP + r"::<.*>::clear", map_clear)
     M.add(MAP + r"::<.*>::contains_key::<.*>", lambda c, m, a: sbool(map_get(c, m, a).variant == "Some"))
 
     def map_extend(c, m, a):
